@@ -59,6 +59,7 @@ func rioAlphabet() []rioRec {
 		{"mk00ff", overflow},
 		{"00ab", []byte{0x00, 'a', 'b'}},
 		{"80ab", []byte{0x80, 'a', 'b'}},
+		{"z40", make([]byte, 40)}, // all zero: indistinguishable from block padding if it lingers behind the end
 		{"big", big},
 	}
 }
